@@ -268,7 +268,14 @@ impl RawConnectorBuilder {
         let rest = spl.next();
         if let (Some(id_str), Some(features_str), None) = (id_str, features_str, rest) {
             let id: usize = id_str.parse()?;
-            let features = utils::parse_csv_row(features_str);
+            // A connection id without any feature (e.g., that of a virtual edge added in training)
+            // is written as an empty row. It must not be read as one empty feature, which is
+            // the feature of BOS/EOS.
+            let features = if features_str.is_empty() {
+                vec![]
+            } else {
+                utils::parse_csv_row(features_str)
+            };
             let mut result = vec![];
             for feature in features {
                 result.push(*id_map.get(&feature).unwrap_or(&INVALID_FEATURE_ID));
